@@ -575,7 +575,8 @@ class Runner(object):
             self.violation('C15', 'maxsize-mismatch', 'info().maxsize=%r, configured %r'
                            % (s1['info'][3], self.maxsize))
         if cls == 'degraded':
-            if mem1 != mem0:
+            # (the non-caching decorator legitimately empties its memory at the end of every call)
+            if (self.algo != 'no' and mem1 != mem0) or any(x not in mem0 for x in mem1):
                 self.violation('C16', 'degraded-call-changed-memory',
                                'un-keyable call changed the cache')
             return
@@ -876,6 +877,12 @@ def gen_case(rng, focus, nops=None):
         if not gen.backend_accepts(b, kk, km):
             continue
         safe = rng.random() < 0.4
+        if focus == 'C16' and safe and rng.random() < 0.4:
+            km = {'cls': 'keymap', 'type': None, 'flat': True, 'typed': rng.random() < 0.3,
+                  'sentinel': gen.sig_has_varargs(sig) or rng.random() < 0.3}
+            kk = 'raw'
+            if not gen.backend_accepts(b, kk, km):
+                b = {'kind': 'dict_archive'}
         if kk == 'raw' and not km['flat']:
             continue   # (args, kwds) raw keys are unhashable: every call fails at once / degrades
         break
@@ -883,6 +890,8 @@ def gen_case(rng, focus, nops=None):
         raise RuntimeError('no compatible configuration found')
     algo = rng.choice(ALGOS if focus not in ('C06',) else list(BOUNDED))
     if focus in ('C05', 'C06', 'C07') and rng.random() < 0.7:
+        algo = rng.choice(BOUNDED)
+    if focus == 'C16' and safe and rng.random() < 0.6:
         algo = rng.choice(BOUNDED)
     maxsize = rng.choice([1, 2, 3, 5, 8]) if focus == 'C06' else rng.choice([1, 2, 3, 3, 5, 8, 0, None])
     cfg = {'algo': algo, 'safe': safe, 'maxsize': maxsize,
@@ -1004,7 +1013,8 @@ def gen_mgmt(rng, focus, cfg, pool, has_arch):
         if focus in ('C02', 'C07'):
             choices += [['swaparchive'], ['archived', 0]]
         if focus in ('C01', 'C05', 'C15', 'C07'):
-            choices += [['load'], ['archfill', [[enc(c[0]), enc(c[1])] for c in pool]],
+            part = rng.sample(pool, max(1, int(len(pool) * rng.choice([0.4, 0.6, 1.0]))))
+            choices += [['load'], ['load'], ['archfill', [[enc(c[0]), enc(c[1])] for c in part]],
                         ['swaparchive']]
     if not has_arch and focus in ('C01', 'C05', 'C15') and not cfg['backend'].get('direct'):
         choices += [['swaparchive']]     # an archive attached after decoration
